@@ -1,5 +1,5 @@
 (** Correspondence cases for the MVCC family (C01 C02 C05 C06 C07 C09 C10). *)
-From NV Require Export Base.Bytes Base.TieBase Codec.Frame Mvcc.Store Mvcc.Ops.
+From NV Require Export Base.Bytes Base.TieBase Codec.Frame Codec.Crc32 Codec.FileImage Mvcc.Store Mvcc.Ops Mvcc.Spec Mvcc.InvDefs Mvcc.Stmts Mvcc.RefineStmt Mvcc.ViewSorted Mvcc.Backup.
 Open Scope N_scope.
 
 Definition cmp_of (k : N) : list N -> list N -> comparison :=
@@ -33,7 +33,13 @@ Definition run_iter := run_iter_from false.
 Inductive case :=
 | CMvcc (cmpk : N) (ops : list op) (obs : list out)
 | CIter (cmpk : N) (ops : list op) (sn : N) (script : list iop) (obs : list iobs)
-| CVisit (cmpk : N) (key_only : bool) (ops : list op) (sn : N) (rate : Z) (pivots : list pivot) (obs : list (list (list N))).
+| CVisit (cmpk : N) (key_only : bool) (ops : list op) (sn : N) (rate : Z) (pivots : list pivot) (obs : list (list (list N)))
+(** StoreToDisk of snapshot sn with the observed pivots: shard files and recorded checksums as written,
+    and what LoadFromDisk returned *)
+| CBackup (cmpk : N) (ops : list op) (sn : N) (pivots : list pivot) (nshards : nat)
+          (files : list (list (N * N))) (cks : list N) (loaded : list (list N))
+(** a history on an instance populated by LoadFromDisk with [items] *)
+| CRestored (cmpk : N) (items : list (list N)) (ops : list op) (obs : list out).
 
 Definition optb {A} (eqb : A -> A -> bool) (a b : option A) : bool :=
   match a, b with Some x, Some y => eqb x y | None, None => true | _, _ => false end.
@@ -77,4 +83,13 @@ Definition check (c : case) : bool :=
   | CVisit k ko ops sn rate pivots obs =>
     let d := fst (run (cmp_of k) db_init ops) in
     list_eqb bytes_list_eqb (strip_trailing_empty (visitor (cmp_of k) ko (store d) sn rate pivots)) (strip_trailing_empty obs)
+  | CBackup k ops sn pivots nshards files cks loaded =>
+    let d := fst (run (cmp_of k) db_init ops) in
+    let sh := visitor (cmp_of k) true (store d) sn 10000 pivots in
+    let sh := sh ++ repeat [] (nshards - length sh) in
+    list_eqb bytes_eqb (map (file_of crc32) sh) (map expand files)
+    && listN_eqb (map (fun items => w_ck (write_items crc32 items)) sh) cks
+    && bytes_list_eqb (concat sh) loaded
+    && match load_data crc32 (stored_image crc32 sh) with LOk l => bytes_list_eqb l loaded | LErr => false end
+  | CRestored k items ops obs => list_eqb out_eqb (snd (run (cmp_of k) (restored_db items) ops)) obs
   end.
